@@ -81,7 +81,7 @@ func checkC03(c *core.Ctx) {
 	sp := theory.AllSpellings()
 	variants := 1
 	if !c.Quick() {
-		variants = 14
+		variants = 16
 	}
 	per := len(sp) * (len(sp) + 1)
 	total := len(keys) * per
@@ -95,13 +95,13 @@ func checkC03(c *core.Ctx) {
 	var acceptedMu sync.Mutex
 	nCases := total * variants
 	if c.Quick() {
-		nCases = total + 6000 // the full --key sweep plus a seeded sample of the carried-key variants
+		nCases = total + 7000 // the full --key sweep plus a seeded sample of the carried-key variants
 	}
 	c.Stream("sweep", nCases, func(i int, rr *rand.Rand) {
 		variant := i / total
 		j := i % total
 		if c.Quick() && i >= total {
-			variant = 3 + rr.Intn(11)
+			variant = 3 + rr.Intn(13)
 			j = rr.Intn(total)
 		}
 		k := keys[j/per]
@@ -225,6 +225,18 @@ func checkC03(c *core.Ctx) {
 		if variant == 13 {
 			text += [][2]string{{"{capo=2,key=", "}"}, {"{author=x,bar=1,key=", ",zz=top}"}, {"{1=one,Key=H,key=", "}"}, {"{key=", ",capo=3}"}}[j%4][0] + k.String() + [][2]string{{"{capo=2,key=", "}"}, {"{author=x,bar=1,key=", ",zz=top}"}, {"{1=one,Key=H,key=", "}"}, {"{key=", ",capo=3}"}}[j%4][1]
 			args = []string{"text", "conv", "syllable"}
+		}
+		// blanks are blanks: every white space character of Unicode separates like a space - behind the name of the
+		// key entry, in front of its value (14), and between the letter of a root or bass and its accidental (15)
+		exotic := []string{"\f", "\v", "\u0085", "\u00a0", "\u2003", "\u2028", "\u3000", "\u202f", "\u1680"}
+		if variant == 14 {
+			ws := exotic[j%len(exotic)]
+			text += "{key" + ws + "=" + []string{"", ws, " "}[j%3] + k.String() + "}"
+			args = []string{"text", "conv", "syllable"}
+		}
+		if variant == 15 {
+			ws := exotic[j%len(exotic)]
+			text = strings.NewReplacer("#", ws+"#", "b", ws+"b").Replace(text)
 		}
 		var r *runner.Result
 		if viaFile {
